@@ -84,7 +84,35 @@ func lsRun(dir, backend string, shards, workers, ops int, seed uint64, mode stri
 			done.Add(1)
 		}
 	}
-	if mode == "selfevict" {
+	if mode == "budget" {
+		// a run-time change of a limit to BELOW what is cached (memory budget 0 %, size limit 1 byte), then ordinary
+		// operations: the change handlers run while the cache is over its new limits
+		workers, ops = 1, 0
+		wg.Add(1)
+		go func() {
+			defer wg.Done()
+			for i := 0; i < 4; i++ {
+				if e, err := c.Cache(keys[i], bytes.NewReader(body[:300]), time.Now().Add(time.Hour), i); err == nil {
+					e.Data.Close()
+				}
+				done.Add(1)
+			}
+			cfg.Cache.Memory.MemoryBudgetPercent.Overwrite(0)
+			cfg.Cache.MaxCacheSize.Overwrite(bytesize.ByteSize(1))
+			time.Sleep(20 * time.Millisecond)
+			for i := 0; i < 6; i++ {
+				if e, err := c.Get(keys[i%len(keys)]); err == nil {
+					e.Data.Close()
+				}
+				if e, err := c.Cache(keys[(i+1)%len(keys)], bytes.NewReader(body[:50]), time.Now().Add(time.Hour), i); err == nil {
+					e.Data.Close()
+				}
+				c.Delete(keys[(i+2)%len(keys)])
+				done.Add(1)
+			}
+			cfg.Cache.Memory.MemoryBudgetPercent.Overwrite(75)
+		}()
+	} else if mode == "selfevict" {
 		// fill the single-shard cache, then store once more: the eviction runs inside Cache() holding the shard lock
 		workers, ops = 1, 0
 		wg.Add(1)
@@ -156,6 +184,7 @@ func init() {
 			}
 			for _, b := range []string{"mem", "file"} {
 				emit("ls", "selfevict", b, "1", "1", "0", strconv.FormatUint(r.U64()%1000, 10))
+				emit("ls", "budget", b, []string{"1", "3", "64"}[r.Intn(3)], "1", "0", strconv.FormatUint(r.U64()%1000, 10))
 				for i := 0; i < rounds; i++ {
 					for _, sh := range []string{"1", "2", "3", "64"} {
 						emit("ls", "stress", b, sh, "8", strconv.Itoa(ops), strconv.FormatUint(r.U64()%100000, 10))
